@@ -142,16 +142,29 @@ def build_and_run(ctx, cases, nshards=None, profile='dbg', features=(), per_job_
                 _, _, c, v = where[pn]
                 c.build_failed.setdefault(v.name, 'shard failed to build and culprit could not be isolated:\n' + out[-3000:])
 
-    # jobs per shard
-    shard_jobs = [[] for _ in shards]
+    built = {'bins': bins, 'where': where, 'nshards': len(shards)}
+    rstats = run_jobs(ctx, cases, built, per_job_timeout=per_job_timeout, run_env=run_env, wrapper=wrapper)
+    stats.update(rstats)
+    stats['overlap_result'] = overlap_result
+    stats['built'] = built
+    return stats
+
+
+def run_jobs(ctx, cases, built, per_job_timeout=180, run_env=None, wrapper=None):
+    """runs case.jobs (those without a result yet) on already built shard binaries"""
+    bins, where, nshards = built['bins'], built['where'], built['nshards']
+    stats = {}
+    shard_jobs = [[] for _ in range(nshards)]
     for c in cases:
         for j in c.jobs:
-            if j.variant.name in c.build_failed:
+            if j.variant.name in c.build_failed or j.result is not None:
                 continue
             si = where[j.progname][0]
             shard_jobs[si].append(j)
     t1 = time.time()
     incidents_all = []
+    ctx._jobfile_seq = getattr(ctx, '_jobfile_seq', 0) + 1
+    seq = ctx._jobfile_seq
 
     def run_one(si):
         jobs = shard_jobs[si]
@@ -160,8 +173,8 @@ def build_and_run(ctx, cases, nshards=None, profile='dbg', features=(), per_job_
         m = 'shard%d' % si
         if bins.get(m) is None:
             return
-        jp = os.path.join(ctx.work, 'jobs%d.txt' % si)
-        op = os.path.join(ctx.work, 'out%d.txt' % si)
+        jp = os.path.join(ctx.work, 'jobs%d_%d.txt' % (si, seq))
+        op = os.path.join(ctx.work, 'out%d_%d.txt' % (si, seq))
         core.write_jobs(jp, [job_dict(j) for j in jobs])
         results, incidents = core.run_shard(bins[m], jp, op, len(jobs), per_job_timeout=per_job_timeout, env=run_env, wrapper=wrapper)
         for j in jobs:
@@ -181,10 +194,9 @@ def build_and_run(ctx, cases, nshards=None, profile='dbg', features=(), per_job_
             pass
 
     with ThreadPoolExecutor(max_workers=core.NCPU) as ex:
-        list(ex.map(run_one, range(len(shards))))
+        list(ex.map(run_one, range(nshards)))
     stats['run_s'] = round(time.time() - t1, 1)
     stats['incidents'] = len(incidents_all)
-    stats['overlap_result'] = overlap_result
     return stats
 
 
